@@ -63,6 +63,8 @@ pub fn gen_scn(seed: u64, corpus: &[world::CorpusProgram]) -> Scn {
                 s
             }
         };
+        // a checkout with Windows line endings (the lexer ignores `\r`; what fmt writes must still satisfy --check)
+        let content = if r.chance(1, 6) { content.replace("\r\n", "\n").replace('\n', "\r\n") } else { content };
         tree.file(&path, &content);
     }
     // things that must be skipped or survive
@@ -113,6 +115,10 @@ pub fn gen_scn(seed: u64, corpus: &[world::CorpusProgram]) -> Scn {
     if r.chance(1, 5) {
         // shuffle the middle of the history a bit: extra checks / diffs
         ops.insert(r.range(0, ops.len() as u64) as usize, if r.chance(1, 2) { "check" } else { "diff" }.to_string());
+    }
+    if r.chance(1, 3) {
+        // both read-only flags on one command line
+        ops.insert(r.range(0, 2) as usize, "check+diff".to_string());
     }
     let path_arg = match r.below(6) {
         0 if tree.get("src/f0.incn").is_some() => "src".to_string(),
@@ -179,7 +185,7 @@ fn capture_end(c: Capture) -> (String, String) {
 }
 
 fn run_op(op: &str, scn: &Scn, root: &Path, scratch: &Path, fakebin: &Path, hash_seed: u64) -> OpOut {
-    let (check, diff) = (op == "check", op == "diff");
+    let (check, diff) = (op == "check" || op == "check+diff", op == "diff" || op == "check+diff");
     if scn.subproc {
         let mut args: Vec<String> = vec!["--no-banner".into(), "--color".into(), "never".into(), "fmt".into()];
         if check {
@@ -459,10 +465,10 @@ pub fn run_case(scn: &Scn, scratch: &Path, fakebin: &Path, hash_seed: u64) -> Ca
             }
         }
         match op.as_str() {
-            "check" | "diff" => {
+            "check" | "diff" | "check+diff" => {
                 // I1: read-only modes never modify anything
                 if let Some(d) = snap_diff(&before, &after) {
-                    add(&mut out, "readonly-mode-modified-files", &format!("{op}"), format!("`incan fmt --{op} {}` changed the tree: {d}", scn.path_arg));
+                    add(&mut out, "readonly-mode-modified-files", &format!("{op}"), format!("`incan fmt {} {}` changed the tree: {d}", op.split('+').map(|f| format!("--{f}")).collect::<Vec<_>>().join(" "), scn.path_arg));
                 }
                 if op == "check" && !rewritten.is_empty() {
                     // I2: --check right after fmt rewrote a file
